@@ -48,6 +48,7 @@ REQ_S = ["MV.Spec.Rel", "MV.Model.Routing", "MV.Model.RoutingJ", "MV.Model.Routi
 DEFS_S = """
 Definition own_prem (c : list xstep) : bool := own_okb c.
 Definition chk_own (c : list xstep) : bool := negb (own_okb c) || joins_read_own c.
+Definition chk_prem_own (c : list xstep) : bool := own_okb c && joins_read_own c.
 """
 
 
@@ -192,6 +193,12 @@ def run_family(rep: vlib.Reporter, rng: random.Random, big: bool) -> Tuple[int, 
     specs = family(rng, big)
     recs = [one(s) for s in specs]
     found = False
+    reported = [0]
+
+    def violation(key: str, what: str, replay_obj: Dict[str, Any]) -> None:
+        reported[0] += 1
+        if reported[0] <= 6:                     # one replay file per failing input, at most six per run
+            rep.finding(key, what, replay_obj)
     dist: Dict[str, Any] = {"requests": len(specs), "status": {}, "by_pair": {}, "by_k": {}, "by_jt": {}, "by_keying": {},
                             "with_two_arm_consumer": 0}
     # ---- judge: every consumer against rel_join of its own Link -------------------------------------------------------
@@ -216,10 +223,12 @@ def run_family(rep: vlib.Reporter, rng: random.Random, big: bool) -> Tuple[int, 
     # ---- model: premises, conclusion, footprints, consumer tables -----------------------------------------------------
     rt = [n for n, r in enumerate(recs) if r.get("route")]
     step_terms = [cq_list(recs[n]["route"][0]) for n in rt]
-    prem_false = set(rt[j] for j in (vlib.run_cases("C05", "shared_prem", REQ_S, "own_prem", step_terms, extra_defs=DEFS_S,
-                                                    case_type="list xstep", shard=60)[0] if rt else []))
-    own_bad = set(rt[j] for j in (vlib.run_cases("C05", "shared_own", REQ_S, "chk_own", step_terms, extra_defs=DEFS_S,
-                                                 case_type="list xstep", shard=60)[0] if rt else []))
+    # premises and conclusion in one pass; the failing ones are then split into "premises false" / "conclusion false"
+    both_bad = vlib.run_cases("C05", "shared_prem_own", REQ_S, "chk_prem_own", step_terms, extra_defs=DEFS_S,
+                              case_type="list xstep", shard=60)[0] if rt else []
+    prem_false = set(rt[both_bad[j]] for j in (vlib.run_cases("C05", "shared_prem", REQ_S, "own_prem", [step_terms[j] for j in both_bad],
+                                                              extra_defs=DEFS_S, case_type="list xstep", shard=60)[0] if both_bad else []))
+    own_bad = set(rt[j] for j in both_bad) - prem_false
     bad_rt, info_rt = routing_j.check_routes("C05", "shared_routex", [recs[n]["route"] for n in rt])
     route_bad = set(rt[j] for j in bad_rt)
     cols = {n: root_columns(recs[n]["spec"]) for n in rt}
@@ -293,7 +302,7 @@ def run_family(rep: vlib.Reporter, rng: random.Random, big: bool) -> Tuple[int, 
                 rep.finding(KF_MULTIWAY, f"two-arm consumer DX over v0, v1, s: {r['status']}: {r.get('exc')}", replay)
                 continue
             if problems:
-                rep.finding(f"shared:{key}", "; ".join(problems), replay)
+                violation(f"shared:{key}", "; ".join(problems), replay)
                 found = True
             continue
         # ---- L = R: the recorded domain -------------------------------------------------------------------------------
@@ -303,19 +312,20 @@ def run_family(rep: vlib.Reporter, rng: random.Random, big: bool) -> Tuple[int, 
             problems.append("the objects the steps worked on are not the ones Model/RoutingJ.v computes from the plan and the begin order")
         hard = [p for p in problems if not p.startswith("consumer D")]
         if hard or r["status"] != "ok" or arms_missing:
-            rep.finding(f"shared:{key}", "; ".join(problems or [f"status {r['status']}"]) + f" (request in domain {dom}, but this is not "
-                        "the recorded behaviour)", replay)
+            violation(f"shared:{key}", "; ".join(problems or [f"status {r['status']}"]) + f" (request in domain {dom}, but this is not "
+                      "the recorded behaviour)", replay)
             found = True
         elif n in wrong_arm:
             if n in seen_bad:
-                rep.finding(f"shared:{key}", "; ".join(problems) + f" (request in domain {dom}, but the rows are neither the specified joins "
-                            f"nor the tables the faithful model computes: consumers {seen_bad[n]})", replay)
+                violation(f"shared:{key}", "; ".join(problems) + f" (request in domain {dom}, but the rows are neither the specified joins "
+                          f"nor the tables the faithful model computes: consumers {seen_bad[n]})", replay)
                 found = True
             else:
                 out["recorded_domain_equal_to_model"] += 1
                 rep.finding(dom, "; ".join(problems), replay)
         else:
             out["recorded_domain_equal_to_spec"] += 1
+    out["violating_requests"] = reported[0]
     out.update({"footprint_runs": len(rt), "footprint_disagreements": len(bad_rt), "consumer_tables_compared": len(seen_items),
                 "consumer_table_disagreements_outside_domain": sum(len(v) for n, v in seen_bad.items() if kf_of(recs[n]["spec"]) is None),
                 "coq_eval_s": {"judge": jinfo.get("coq_eval_s"), "routes": info_rt.get("coq_eval_s"), "seen": info_seen.get("coq_eval_s")}})
